@@ -340,6 +340,8 @@ def r6(ctx):
         good = uo['height_desc'] and uo['lexicographic'] and comps in (['outpoint', 'value'], ['txid', 'vout', 'value'])
         ctx.check(good, 'R6', 'utxo-order', uo['fn'], 'Ord for Utxo: height descending, then outpoint (txid, vout), then value',
                   'Utxo::cmp: height descending=%s, lexicographic chain=%s, components=%s' % (uo['height_desc'], uo['lexicographic'], uo['components']))
+    from rules import atoms
+    atoms.merge_order(ctx, 'R6')
     rn = ctx.fn('R6', T + 'AddressUtxoRange::new')
     if rn:
         e = ex(prog, rn)
